@@ -113,14 +113,10 @@ func (v *objectValidator) feedObjectValueBegin() ([]validator, bool) {
 	}
 
 	// child node not found on schema object
-	if c := v.node_.Constraint(constraint.RequiredKeysConstraintType); c != nil {
-		key, ok := v.validateTypeRules(v.lastFoundKeyLex.Value())
-		if ok {
-			child, ok := objectNode.ChildByRawKey([]byte(key))
-			if ok {
-				delete(v.requiredKeys, key)
-				return NodeValidatorList(child, v.rootSchema, v), false
-			}
+	if key, ok := v.validateTypeRules(objectNode, v.lastFoundKeyLex.Value()); ok {
+		if child, ok := objectNode.Child(key, true); ok {
+			delete(v.requiredKeys, key)
+			return NodeValidatorList(child, v.rootSchema, v), false
 		}
 	}
 	if c := v.node_.Constraint(constraint.AdditionalPropertiesConstraintType); c != nil {
@@ -142,8 +138,15 @@ func (v objectValidator) requiredKeysString() string {
 }
 
 // validate with rules
-func (v objectValidator) validateTypeRules(value jbytes.Bytes) (string, bool) {
-	for key := range v.requiredKeys {
+//
+// Every key shortcut of the object is tried, in source order, whether it is
+// required or optional and whether it has already admitted another key.
+func (v objectValidator) validateTypeRules(objectNode *schema.ObjectNode, value jbytes.Bytes) (string, bool) {
+	for _, k := range objectNode.Keys().Data {
+		if !k.IsShortcut {
+			continue
+		}
+		key := k.Key
 		typ, ok := v.rootSchema.TypesList()[key]
 		if !ok {
 			continue
